@@ -20,14 +20,28 @@ META = {
              "gives Spec.refOps — the eight documented ops over the decoded tree — of the parsed input; REMOVE_VAL with scalar values), "
              "untouched_target (siblings of the target, incl. one-segment paths), atomic_fold — all for arbitrary inputs; closed witnesses witness_unvalidated "
              "(SET x <- 0xc1 succeeds, body no longer parses) and witness_nan_equal (EQUAL NaN is met) refute the property for the "
-             "unrepaired fact values; classify_sound ties the decision to the extracted facts."),
+             "unrepaired fact values; classify_sound ties the decision to the extracted facts. THE WIRE: wire_cond_agrees / wire_op_agrees "
+             "(when the Go const blocks of CondOp / OpKind are the proto enums' tables — extracted from condition.go, apply.go and "
+             "hydraide.pb.go — and the conversion in gateway_patch.go range-checks, every wire number reaches the engine as the operator "
+             "the proto names, any other number as no operator), gw_refines (Gateway.PatchTreasures and PatchExpiredTreasures / "
+             "applyPatchExpiredOne do to the treasure what PatchFields does with the operators the request means), WireHolds is part "
+             "of the decided statement; witness_wire_truncated (unchecked cast: 256 = SET, 257 = NOT_EQUAL) and witness_wire_swapped; "
+             "every PatchFields line of the run is also sent through both RPCs with proto enum numbers (`gp` / `gx` lines). "
+             "SeedIsMap (pfGate_created_map: a treasure is only ever created from a msgpack map — `non-map seeds yield TYPE_MISMATCH`; "
+             "witness_nonmap_seed for the code that only parses the seed) is part of the decided statement as well."),
     "note": ("Trusted: Lean kernel (propext, Classical.choice, Quot.sound); extract/c13.go; harness/c13.go; checks/C13.py. The model "
              "mirrors vmihailenco/msgpack v5.4.1 (Skip, DecodeMapLen/ArrayLen/String, generic Unmarshal with only the time extension "
              "registered) — validated by the correspondence run, not proved. PLATFORM ASSUMPTION: the payload bits of a NaN produced by INC (x + NaN, Inf + -Inf, float32(NaN)) are not defined by the Go "
              "spec; the model states the amd64 SSE2 rule (first NaN operand, quieted; default NaN fff8…), but the correspondence does not "
              "assert it: every op line whose INC may meet NaN / ±Inf is an `apn` line, for which both sides print NaN leaves as the "
-             "canonical quiet NaN (compared as \"is NaN\"). apply_wf "
-             "assumes no container is pushed past 2^32-1 children and paths shorter than 2^32 bytes. ERROR CLASSES: apply_error_class proves that a documented "
+             "canonical quiet NaN (compared as \"is NaN\"). EXPLICIT EXCLUSIONS of apply_wf / "
+             "apply_refines_spec / apply_error_class (RefinesSpec, SuccessWf, ErrorClassAgrees in Holds): (hpaths) an op whose path is "
+             "2^32 bytes or longer, and (hsize) a patch for which (largest child count of any map / array in the parsed body) + "
+             "(number of ops + number of MERGE fields) reaches 2^32 — i.e. a container that could be pushed to 2^32-1 children, where "
+             "the msgpack header can no longer express the count (EncodeMapLen / EncodeArrayLen truncate to 32 bits). Both need a "
+             "single request of 4 GiB or more (one byte per child at least; the path itself), which neither gRPC nor the 32-bit "
+             "length prefixes of the store admit: they are unreachable and NOT covered by any theorem, witness or test here; nothing "
+             "is claimed about the code's behaviour on them. ERROR CLASSES: apply_error_class proves that a documented "
              "failure of class c (Spec.refOps) is a failure of class c of the model (and op_agrees / applyOps_agrees the converse), "
              "for all op kinds, when (a) MERGE values are ones the code accepts and (b) no op runs after a same-patch container "
              "splice (NoSplice; finding C13-spliced-value-opaque otherwise). Ambiguous in the docs, tested only: a rejected MERGE "
@@ -45,6 +59,17 @@ FINDINGS = {
     "C13-removeval-skips-containers": "applyRemoveVal skips every array element that is a map / array parsed from the stored body: on {\"t\":[[1]]}, "
                                       "REMOVE_VAL t <- [1] reports success and removes nothing (the docs: `the first array element whose "
                                       "msgpack-encoded bytes equal Value`); the same value IS removed when it was appended earlier in the same patch",
+    "C13-removeval-all-matches": "applyRemoveVal removes EVERY array element equal to Value: on {\"t\":[1,2,1]}, REMOVE_VAL t <- 1 leaves [2] "
+                                 "(the docs: `the FIRST array element whose msgpack-encoded bytes equal Value` — [2,1])",
+    "C13-wire-enum-truncated": "gateway_patch.go turns PatchOp.Kind / PatchCondition.Op into the engine's uint8 enums by a bare type conversion: "
+                               "a wire number that is no operator but differs from one by a multiple of 256 is executed as that operator "
+                               "(Kind 256 = SET, Operator 257 = NOT_EQUAL) instead of being rejected like 8 or 99",
+    "C13-wire-enum-misaligned": "the Go const block of msgpackpatch.OpKind / CondOp is not in the order of the proto enum: a wire operator "
+                                "reaches the engine as another operator (PatchTreasures / PatchExpiredTreasures only; PatchFields callers "
+                                "that use the Go names are unaffected)",
+    "C13-nonmap-seed-created": "PatchFields only checks that InitialMsgpackOnCreate parses: with CreateIfNotExist, seed 0x01 (or an array, a "
+                               "string) and no op that touches the root, the missing key is reported CREATED and the treasure's body is "
+                               "that non-map value (documented twice: `Must be a msgpack-encoded map; non-map seeds yield TYPE_MISMATCH`)",
     "C13-status-mapping": "classifyPatchError maps a msgpackpatch error class to another PatchFields status than documented "
                           "(CONDITION_NOT_MET / TYPE_MISMATCH / PATH_INVALID for path and invalid-op / ENCODING_NOT_SUPPORTED)",
     "C13-spliced-value-opaque": "a map / array value stored by SET / APPEND / PREPEND / MERGE is an opaque leaf for the rest of the same patch: "
@@ -448,10 +473,15 @@ def _ref_op(t, kind, path, val):
                 except Malformed:
                     want = bytes(val)
                 xs = list(tgt[1])
-                for i, x in enumerate(xs):
-                    if _enc(x) == want:
-                        del xs[i]
-                        break
+                if RMVAL_RULE[0] == "all":          # hypothesis: every match goes
+                    xs = [x for x in xs if _enc(x) != want]
+                else:
+                    for i, x in enumerate(xs):
+                        if RMVAL_RULE[0] == "skip" and x[0] != "L":   # hypothesis: container elements are skipped
+                            continue
+                        if _enc(x) == want:
+                            del xs[i]
+                            break
                 put(hit[1], ("A", xs))
         elif kind == "merge":
             def merged(fs):
@@ -648,6 +678,35 @@ def rmval_container(ops):
     return False
 
 
+# REMOVE_VAL under the documented rule ("doc": the first element whose encoding equals Value) or under one of
+# the two deviations seen in the code's history — used only to NAME the cause of an already established deviation
+RMVAL_RULE = ["doc"]
+RMVAL_CAUSES = (("skip", "C13-removeval-skips-containers"), ("all", "C13-removeval-all-matches"))
+
+
+def rmval_cause(body, cond, ops, observed):
+    """the implementation's outcome `observed` = ("ok", tree) | ("err", status) deviates from the documented one:
+    is it what REMOVE_VAL-skips-containers / REMOVE_VAL-removes-every-match would give?  → finding id | None"""
+    if not any(k == "rmval" for k, _, _ in ops):
+        return None
+    for rule, fid in RMVAL_CAUSES:
+        RMVAL_RULE[0] = rule
+        try:
+            exp = ref_outcome(body, cond, ops)
+        except Opaque:
+            exp = None
+        finally:
+            RMVAL_RULE[0] = "doc"
+        if exp is None or exp[0] != observed[0]:
+            continue
+        if exp[0] == "err":
+            if exp[1] == observed[1]:
+                return fid
+        elif exp[1] == observed[1] or _canon_nan(exp[1]) == _canon_nan(observed[1]):
+            return fid
+    return None
+
+
 def value_malformed(ops):
     """does the op list splice a value that is not exactly one well-formed, string-keyed value?"""
     for k, _, v in ops:
@@ -703,7 +762,7 @@ def oracle_line(op, rep):
             except (Skip, Opaque):
                 return None
             except RefErr as e:
-                fid = "C13-removeval-skips-containers" if rmval_container(ops) else None
+                fid = rmval_cause(body, None, ops, ("ok", got))
                 return (fid, "reported success, but the documented semantics reject the op list (%s)" % e)
             except Malformed:
                 return (None, "reported success on a body / with an output the reference decoder rejects")
@@ -712,17 +771,18 @@ def oracle_line(op, rep):
             if got != t:
                 d = _first_diff(got, t)
                 if d and d[1][0] == "L" and d[2][0] == "L" and _num(d[1][1])[0] and _num(d[2][1])[0] \
-                        and d[1][1][0] != d[2][1][0] and any(k == "inc" for k, _, _ in ops) and not rmval_container(ops):
+                        and d[1][1][0] != d[2][1][0] and any(k == "inc" for k, _, _ in ops) \
+                        and rmval_cause(body, None, ops, ("ok", got)) is None:
                     return (None, "INC does not keep the target's numeric format: at `%s` the output holds %s (code %02x), the documented "
                             "rule gives %s (code %02x)" % (d[0].lstrip("."), d[1][1].hex(), d[1][1][0], d[2][1].hex(), d[2][1][0]))
                 where = " (first difference at `%s`: got %s, expected %s)" % (
                     d[0].lstrip("."), d[1][1].hex() if d[1][0] in ("L", "K") else d[1], d[2][1].hex() if d[2][0] in ("L", "K") else d[2]) if d else ""
-                fid = "C13-removeval-skips-containers" if rmval_container(ops) else None
+                fid = rmval_cause(body, None, ops, ("ok", got))
                 return (fid, "output %s does not decode to the document the documented semantics give%s" % (f[1], where))
         elif rep.startswith("err "):
             return judge_error(body, cond, ops, GROUP.get(rep[4:]), "the patch was rejected with `%s`" % rep)
         return None
-    if op.startswith("pf "):
+    if op.startswith(("pf ", "gp ", "gx ")):
         return judge_pf(op, rep)
     return None
 
@@ -771,7 +831,7 @@ def judge_error(body, cond, ops, got_status, what):
     if exp is None:
         return None
     if exp[0] == "ok":
-        fid = "C13-removeval-skips-containers" if rmval_container(ops) else None
+        fid = rmval_cause(body, cond, ops, ("err", got_status))
         return (fid, "the documented semantics apply the op list, but " + what)
     if exp[1] != got_status:
         if exp[1] == 3:
@@ -780,14 +840,34 @@ def judge_error(body, cond, ops, got_status, what):
             return (None, "condition %s IS met by the document (exact integer / IEEE comparison), but the patch was rejected as "
                     "CONDITION_NOT_MET" % ":".join(cond or ()))
         # a skipped container REMOVE_VAL changes what the following ops meet (another error, or an error elsewhere)
-        fid = "C13-removeval-skips-containers" if rmval_container(ops) else None
+        fid = rmval_cause(body, cond, ops, ("err", got_status))
         return (fid, "the documented outcome is %s, but %s" % (STATUS_NAME.get(exp[1], exp[1]), what))
     return None
 
 
+# hydraide.proto: PatchOp.Kind / PatchCondition.Op by number (the wire contract)
+DOC_OPS = ["set", "del", "inc", "app", "pre", "rmat", "rmval", "merge"]
+DOC_CONDS = ["eq", "ne", "gt", "ge", "lt", "le", "ex", "nex"]
+
+
+def _doc_tok(k, table):
+    """operator token of a gp / gx line → the operator it MEANS: `wN` is wire number N, no operator outside the enum"""
+    if k.startswith("w"):
+        n = int(k[1:])
+        return table[n] if 0 <= n < len(table) else "unk"
+    return k
+
+
+def _wire_far(tokens):
+    return any(t.startswith("w") and not 0 <= int(t[1:]) < 256 for t in tokens)
+
+
 def judge_pf(op, rep):
-    """PatchFields end-to-end: status, stored body, echoed body and meta against the documentation"""
+    """PatchFields end-to-end (`pf`), and the same call through Gateway.PatchTreasures (`gp`) / on an expired treasure
+    through Gateway.PatchExpiredTreasures (`gx`) with the proto enums: status, stored body, echoed body and meta
+    against the documentation"""
     f = op.split(" ")
+    verb = f[0]
     m = re.match(r"st=(\d+) (\S+) wf=(\d) new=(\S+) exp=(-?\d+) mat=(\d) mby=(\S+) cat=(\d) cby=(\S+)$", rep)
     if not m or len(f) < 6:
         return (None, "PatchFields reply `%s`" % rep)
@@ -800,6 +880,15 @@ def judge_pf(op, rep):
     create, seed, meta = f[2] == "1", unhex(f[3]), f[4]
     cond = None if f[5] == "-" else tuple(f[5].split(":"))
     ops = [tuple(x.split(":")) for x in f[6:]]
+    raw_toks = [o[0] for o in ops] + ([cond[0]] if cond else [])
+    far = verb != "pf" and _wire_far(raw_toks)       # a wire number outside 0‥255: no operator at all
+    if verb != "pf":
+        cond = None if cond is None else (_doc_tok(cond[0], DOC_CONDS),) + cond[1:]
+        ops = [(_doc_tok(k, DOC_OPS), p_, v_) for k, p_, v_ in ops]
+    if verb == "gx":
+        create, seed = False, b""
+    if verb == "gp" and stored.startswith("b:c700") and st in (0, 1):
+        new = stored[6:]                              # PatchTreasures does not echo the body
     mt = {} if meta == "-" else dict((t.split("=") + [""])[:2] for t in meta.split(","))
     # ---- what the documentation promises
     if st in (0, 1):
@@ -818,6 +907,9 @@ def judge_pf(op, rep):
     else:
         if stored != before or new != "-" or exp != exp0 or (mat, mby, cat, cby) != ("0", "-", "0", "-"):
             return (None, "PatchFields status %d but the treasure changed: %s → %s (exp %d → %d)" % (st, f[1], stored, exp0, exp))
+    if cond is not None and cond[0] == "unk" and st in (0, 1):
+        return ("C13-wire-enum-truncated" if far else None,
+                "the condition's operator %s is no PatchCondition.Op, but the patch was applied" % raw_toks[-1])
     # ---- expected status
     if before == "absent" and not create:
         want_st, body = 2, None
@@ -828,11 +920,18 @@ def judge_pf(op, rep):
             dec_all(sd)
         except Malformed:
             seed_ok = False
+        seed_map = sd[0] in range(0x80, 0x90) or sd[0] in (0xde, 0xdf)
         if create and not seed_ok:
             want_st, body = 5, None
+        elif create and not seed_map:
+            # "InitialMsgpackOnCreate … Must be a msgpack-encoded map; non-map seeds yield TYPE_MISMATCH" (hydraide.proto,
+            # PatchFieldsOptions).  A success is a deviation; which error a non-map seed AND a bad op / path / unmet
+            # condition give is not ordered by the docs — the reference abstains on other error statuses.
+            if st == 1 and before == "absent":
+                return ("C13-nonmap-seed-created", "%s created the treasure from the seed %s, which is not a msgpack map "
+                        "(documented: TYPE_MISMATCH)" % ("PatchFields" if verb == "pf" else "PatchTreasures", seed.hex()))
+            return None          # (an existing treasure: the seed is not used; the code may or may not look at it)
         elif before == "absent":
-            if sd[0] not in range(0x80, 0x90) and sd[0] not in (0xde, 0xdf):
-                return None          # non-map seed: documented TYPE_MISMATCH, the code only fails once an op touches it
             want_st, body = None, sd
         elif before == "other":
             want_st, body = 5, None
@@ -857,24 +956,35 @@ def judge_pf(op, rep):
             if st == want_st:
                 try:
                     if dec_all(unhex(new)) != out[1]:
-                        fid = "C13-removeval-skips-containers" if rmval_container(ops) else None
+                        fid = rmval_cause(body, cond, ops, ("ok", dec_all(unhex(new)))) or ("C13-wire-enum-truncated" if far else None)
                         return (fid, "PatchFields stored %s, which is not the document the documented semantics give" % new)
                 except Malformed:
                     return (None, "PatchFields stored a body the reference decoder rejects: %s" % new)
     if st != want_st:
-        fid = "C13-removeval-skips-containers" if rmval_container(ops) and body is not None else None
+        fid = None
+        if body is not None:
+            obs = ("err", st)
+            if st in (0, 1):
+                try:
+                    obs = ("ok", dec_all(unhex(new)))
+                except Malformed:
+                    obs = None
+            fid = rmval_cause(body, cond, ops, obs) if obs else None
+            if fid is None and far:
+                fid = "C13-wire-enum-truncated"
         if fid is None and body is not None and st not in (0, 1) and want_st not in (0, 1, None):
             fid = "C13-status-mapping"      # an op / condition error reported under another status
-        return (fid, "PatchFields replied %s (%d), the documented status is %s (%d)" %
-                (STATUS_NAME.get(st, "?"), st, STATUS_NAME.get(want_st, "?"), want_st))
+        return (fid, "%s replied %s (%d), the documented status is %s (%d)" %
+                ({"pf": "PatchFields", "gp": "PatchTreasures", "gx": "PatchExpiredTreasures"}[verb],
+                 STATUS_NAME.get(st, "?"), st, STATUS_NAME.get(want_st, "?"), want_st))
     return None
 
 
 def spec_violated(rep):
     for op, line in zip(rep["ops"], rep["impl"]):
         r = oracle_line(op, line)
-        if r is not None and r[0] is None:
-            return r[1]
+        if r is not None:
+            return r[1] if r[0] is None else "%s: %s" % (r[0], r[1])
     return None
 
 
@@ -918,7 +1028,8 @@ def run(ctx):
         args = ["validatesValues=" + facts.get("validatesValues", "unknown"), "nanCompare=" + facts.get("nanCompare", "unknown"),
                 "magic=" + magic, "removeValCompare=" + facts.get("removeValCompare", "unknown"),
                 "smap=" + ",".join(facts.get(k, "x") for k in ("stCond", "stType", "stPath", "stOp", "stMsgpack", "stNonstr")),
-                "seedDefault=%02x" % int(facts.get("seedDefault", "0") if facts.get("seedDefault", "unknown") != "unknown" else 0)]
+                "seedDefault=%02x" % int(facts.get("seedDefault", "0") if facts.get("seedDefault", "unknown") != "unknown" else 0)] + \
+               ["%s=%s" % (k, facts.get(k, "unknown")) for k in ("opOrder", "condOrder", "protoOps", "protoConds", "wireConv", "seedMapCheck")]
         c = K.correspondence(ctx, "C13", args, hx_env={"HYDRAIDE_LOG_LEVEL": "error"})
         corrs.append(("C13", args, c))
     else:
@@ -928,13 +1039,14 @@ def run(ctx):
     known = K.known_ids(ctx.pid)
     c = corrs[0][2] if corrs else K.Corr()
     # Spec oracle over every implementation reply (independent of the model)
-    oracle_hits, oracle_new = {}, []
+    oracle_hits, oracle_new, oracle_any = {}, [], set()
     mism = set(c.mismatch)
     for i, (op, rep) in enumerate(zip(c.ops, c.impl)):
         r = oracle_line(op, rep)
         if r is None:
             continue
         fid, text = r
+        oracle_any.add(i)
         if fid is None:
             oracle_new.append((i, text))
         else:
@@ -962,7 +1074,7 @@ def run(ctx):
     # oracle may abstain (the reference has no opinion there), so only a finding with no oracle hit at all counts
     for i, fl in enumerate(c.flags):
         for fid in fl:
-            if i not in mism and not oracle_hits.get(fid):
+            if i not in mism and not oracle_hits.get(fid) and not any(fid in c.flags[j] for j in oracle_any):
                 rep = K.case_replay(c, [i])
                 rep.update({"correspondence": "C13", "finding": fid})
                 ctx.violation("model flags %s but the Spec oracle sees nothing wrong in the implementation's reply" % fid, rep,
@@ -1014,7 +1126,7 @@ def run(ctx):
             hist[k] = hist.get(k, 0) + 1
             if rep.startswith("out "):
                 n_ref += 1
-    distinct = len(set(l for l in c.ops if l.startswith(("ap ", "apn ", "pf ", "parse "))))
+    distinct = len(set(l for l in c.ops if l.startswith(("ap ", "apn ", "pf ", "gp ", "gx ", "parse "))))
     return K.finish(
         ctx, "proof",
         rule=("inputs = generated documents (depth ≤ 4, every leaf format code, fixmap/map16/map32 + fixarray/array16/array32 + "
